@@ -2,8 +2,8 @@ package main
 
 import (
 	"fmt"
-	"net/textproto"
 	"go/types"
+	"net/textproto"
 	"strings"
 )
 
@@ -18,7 +18,7 @@ import (
 //	    was written, in order, in the map of its own direction.
 func c04R6(h H) {
 	r := h.r
-	r.Rule("R6", "configured header changes as decision tables (E10): mutateHeadersByRules appends every value of a +Field rule after the existing ones, deletes for -Field, sets Field to its last value, expands each value through the replacer once, ignores empty expansions and leaves other headers alone; parseBlock records every header_upstream / header_downstream line in the rule map of its own direction, keeping every value of repeated +Field lines in configuration order", 2)
+	r.Rule("R6", "configured header changes as decision tables (E10): mutateHeadersByRules appends every value of a +Field rule after the existing ones, deletes for -Field, sets Field to its last value, expands each value through the replacer once, ignores empty expansions and leaves other headers alone, gives one outcome for several rules on one field whichever way the rule map is walked (with every configured +value present), and a regex replacement rule rewrites every line of a repeated field and drops none; parseBlock records every header_upstream / header_downstream line in the rule map of its own direction, keeping every value of repeated +Field lines in configuration order", 2)
 	hdrT, _ := types.Unalias(h.p.typeByName("net/http", "Header")).Underlying().(*types.Map)
 	strT := types.Typ[types.String]
 	if hdrT == nil {
@@ -117,6 +117,119 @@ func c04R6(h H) {
 			for v, n := range expanded {
 				if n > 1 && bad == "" {
 					bad = fmt.Sprintf("%s: the value %q is expanded %d times", desc, v, n)
+				}
+			}
+		}
+		// ---- several rules on one field: the rules live in a map, whose walk order changes from request to request
+		// — the outcome must not depend on it, and a configured +value must be there at the end
+		type combo struct {
+			rules []interface{}
+			must  string // a value X-Tag has to carry afterwards
+		}
+		combos := []combo{
+			{[]interface{}{"-X-Tag", []string{""}, "+X-Tag", []string{"one"}}, `"<one>"`},
+			{[]interface{}{"X-Tag", []string{"set"}, "+X-Tag", []string{"one"}}, `"<one>"`},
+			{[]interface{}{"-X-Tag", []string{""}, "X-Tag", []string{"set"}}, `"<set>"`},
+			{[]interface{}{"-X-Tag", []string{""}, "X-Tag", []string{"set"}, "+X-Tag", []string{"one", "two"}}, `"<two>"`},
+		}
+		for _, c := range combos {
+			if bad != "" {
+				break
+			}
+			var outcomes []string
+			desc := fmt.Sprintf("headers {Accept: a, X-Tag: zero}, rules %v", c.rules)
+			for _, rev := range []bool{false, true} {
+				env := &absEnv{globals: map[string]*aobj{}, noFork: true, maxSteps: 100000, mapRev: rev}
+				env.ext = func(callee string, args []aval) (aval, bool) {
+					if callee == "invoke:Replace" {
+						if s, ok := args[1].(astr); ok {
+							return astr("<" + string(s) + ">"), true
+						}
+					}
+					return nil, false
+				}
+				hdr := mkHdr("Accept", []string{"a"}, "X-Tag", []string{"zero"})
+				var repls aval = anil{}
+				if replsT != nil {
+					repls = amap{&amapData{vals: map[string]aval{}, keys: map[string]aval{}, typ: replsT}}
+				}
+				repl := aiface{aptr{&aobj{name: "replacer", typ: types.Typ[types.Int], f: map[string]aval{}}, ""}, replT}
+				_, und := env.run(fn, []aval{hdr, mkHdr(c.rules...), repl, repls})
+				nrun++
+				if und != "" {
+					bad = desc + ": undecided — " + und
+					break
+				}
+				outcomes = append(outcomes, vals(hdr, "X-Tag"))
+			}
+			switch {
+			case bad != "":
+			case outcomes[0] != outcomes[1]:
+				bad = fmt.Sprintf("%s: X-Tag becomes %s when the rule map is walked one way and %s the other way — the same configuration changes the same request differently from one request to the next", desc, outcomes[0], outcomes[1])
+			case !strings.Contains(outcomes[0], c.must):
+				bad = fmt.Sprintf("%s: X-Tag becomes %s; the configured value %s is not applied", desc, outcomes[0], c.must)
+			}
+		}
+		// ---- regex replacement rules: every line of the field is rewritten, none is dropped
+		if replsT != nil && bad == "" {
+			if sl, ok := underlying(replsT.Elem()).(*types.Slice); ok {
+				var reF, toF string
+				if st, ok := underlying(sl.Elem()).(*types.Struct); ok {
+					for i := 0; i < st.NumFields(); i++ {
+						switch st.Field(i).Type().String() {
+						case "*regexp.Regexp":
+							reF = st.Field(i).Name()
+						case "string":
+							toF = st.Field(i).Name()
+						}
+					}
+				}
+				for _, lines := range [][]string{{"v1"}, {"v1", "w2"}, {"v1", "", "w2"}} {
+					if reF == "" || toF == "" {
+						bad = "header replacement rule: no regexp / replacement-text fields"
+						break
+					}
+					env := &absEnv{globals: map[string]*aobj{}, noFork: true, maxSteps: 100000}
+					env.ext = func(callee string, args []aval) (aval, bool) {
+						switch {
+						case callee == "invoke:Replace":
+							if s, ok := args[1].(astr); ok {
+								return astr("<" + string(s) + ">"), true
+							}
+						case strings.HasSuffix(callee, "regexp.Regexp).ReplaceAllString"):
+							a, ok1 := args[1].(astr)
+							b, ok2 := args[2].(astr)
+							if ok1 && ok2 {
+								return astr("re(" + string(a) + "→" + string(b) + ")"), true
+							}
+						}
+						return nil, false
+					}
+					hdr := mkHdr("Accept", []string{"a"}, "X-Tag", lines)
+					rule := astruct{map[string]aval{reF: aptr{&aobj{name: "regexp", typ: types.Typ[types.Int], f: map[string]aval{}}, ""}, toF: astr("to")}}
+					repls := amap{&amapData{vals: map[string]aval{"s:x-tag": newVals([]aval{rule}, sl.Elem())}, keys: map[string]aval{"s:x-tag": astr("x-tag")}, typ: replsT}}
+					repl := aiface{aptr{&aobj{name: "replacer", typ: types.Typ[types.Int], f: map[string]aval{}}, ""}, replT}
+					desc := fmt.Sprintf("headers {Accept: a, X-Tag: %q}, replacement rule on x-tag", lines)
+					_, und := env.run(fn, []aval{hdr, mkHdr(), repl, repls})
+					nrun++
+					var want []string
+					for _, l := range lines {
+						if l == "" {
+							want = append(want, `""`)
+						} else {
+							want = append(want, fmt.Sprintf("%q", "re("+l+"→<to>)"))
+						}
+					}
+					if und != "" {
+						bad = desc + ": undecided — " + und
+					} else if got := vals(hdr, "X-Tag"); got != "["+strings.Join(want, " ")+"]" {
+						bad = fmt.Sprintf("%s: X-Tag becomes %s; every line is to be rewritten and none dropped: [%s]", desc, got, strings.Join(want, " "))
+					} else if vals(hdr, "Accept") != `["a"]` {
+						bad = desc + ": the untouched header Accept becomes " + vals(hdr, "Accept")
+					}
+					if bad != "" {
+						break
+					}
 				}
 			}
 		}
